@@ -26,6 +26,8 @@ PRELUDE = ('struct P(a: int, b: str)\nunion V(i: int, s: str)\nfn uf1(x: int)->i
            'fn tdef(n: int, a: int ?= 0)->int{ if(n == 0, 0, tdef(n - 1, if(n == 1, error("E1"), a + n))) }\n'
            'fn tlam(m: int)->int{ fn f(n: int, a: int)->int{ if(n == 0, m - m, f(n - 1, if(n == 1, error("E1"), a + n))) } f(m, 0) }\n'
            'fn twf(a: int, n: int)->int{ if(n == 0, 0, twf(if(n == 1, error("E0"), a + n), n - 1)) }\n'
+           'fn ef(m: str)->float{ error(m) }\nfn es_(m: str)->str{ error(m) }\nfn ei_(m: str)->int{ error(m) }\nfn et(m: str)->(int, str){ error(m) }\n'
+           'fn eq_(m: str)->Sequence<int>{ error(m) }\nfn eo(m: str)->Optional<int>{ error(m) }\n'
            'fn ge(k: int)->(int)->(bool){ (x: int)->{ x >= k } }\nfn fact(n: int)->int{ if(n <= 1, 1, n * fact(n - 1)) }\n')
 
 
@@ -141,6 +143,19 @@ def inject_cases(tier, sigs):
         out.append({'sig': 'C06|tail-call|tdef|n=%d' % n, 'src': 'tdef(%d)' % n, 'exp': Err('E1') if n >= 1 else 0, 'out': None})
         out.append({'sig': 'C06|tail-call|tlam|n=%d' % n, 'src': 'tlam(%d)' % n, 'exp': Err('E1') if n >= 1 else 0, 'out': None})
         out.append({'sig': 'C06|tail-call|tw-first|n=%d' % n, 'src': 'twf(0, %d)' % n, 'exp': Err('E0') if n >= 1 else 0, 'out': None})
+    # derived (dynamic) comparison and equality functions: the leftmost error, for one and for two erroring operands, on every kind of operand
+    typed = {'float': ('ef', '1.5'), 'str': ('es_', '"a"'), 'int': ('ei_', '1'), '(int, str)': ('et', '(1, "a")'), 'Sequence<int>': ('eq_', '[1]'), 'Optional<int>': ('eo', 'some(1)')}
+    for tname, (ef, good) in typed.items():
+        for op in ('lt', 'le', 'gt', 'ge', 'eq', 'ne', 'cmp', 'min', 'max'):
+            if op in ('min', 'max') and tname == 'Optional<int>':
+                continue
+            for sub in ((0,), (1,), (0, 1)):
+                args = [good, good]
+                for i in sub:
+                    args[i] = '%s("E%d")' % (ef, i)
+                out.append({'sig': 'C06|derived|%s|%s|%s' % (op, tname, ','.join(map(str, sub))), 'src': '%s(%s, %s)' % (op, args[0], args[1]), 'exp': Err('E%d' % min(sub)), 'out': None})
+        for sym in ('<', '<=', '>', '>=', '==', '!='):
+            out.append({'sig': 'C06|derived-operator|%s|%s' % (sym, tname), 'src': '(%s("E0")) %s (%s("E1"))' % (ef, sym, ef), 'exp': Err('E0'), 'out': None})
     # constructions and insertions: collections never contain errors
     ctor = [
         ('array', '[1, %s, 3]', 1), ('array-first', '[%s, 2]', 0), ('array-two', '[%s, %s]', (0, 1)),
